@@ -7,6 +7,13 @@ Characters are code points 0x20 < c ≤ 0xFF other than `" * + , / : ; < = > ? [
 the stored form is upper-cased (ASCII letters only, as the library documents), base padded
 with spaces to 8 bytes, extension padded to 3.  `.`, `..` and (by this library's documentation)
 the empty string denote directories.
+
+The 0x05 substitution (FAT specification, `DIR_Name[0]`): 0xE5 in the first byte of a directory
+entry means "this entry is free", so a name whose first character is stored as 0xE5 (in ISO-8859-1:
+U+00E5, which ASCII upper-casing leaves alone) is stored with 0x05 in the first byte instead, and
+0x05 in the first byte reads back as 0xE5.  `firstByte`: the stored first byte is 0x05 iff the
+upper-cased first character is U+00E5.  (0x05 cannot come from anywhere else: U+0005 is a control
+character and not a name character.)
 -/
 namespace Sdmmc.Spec.Name83
 
@@ -21,6 +28,18 @@ def upper (c : Nat) : Nat := if 0x61 ≤ c ∧ c ≤ 0x7A then c - 0x20 else c
 def pad (n : Nat) (cs : List Nat) : List UInt8 :=
   cs.map (fun c => UInt8.ofNat (upper c)) ++ List.replicate (n - cs.length) (UInt8.ofNat 0x20)
 
+/-- The stored first byte of a name whose first character is `c`: 0x05 iff the upper-cased
+character is U+00E5, the upper-cased character otherwise. -/
+def firstByte (c : Nat) : UInt8 := if upper c = 0xE5 then UInt8.ofNat 0x05 else UInt8.ofNat (upper c)
+
+/-- The 8 stored bytes of the base: as `pad 8`, with the substitution in the first byte. -/
+def padBase : List Nat → List UInt8
+  | [] => pad 8 []
+  | c :: rest => firstByte c :: pad 7 rest
+
+/-- Reading the first byte back: 0x05 stands for 0xE5. -/
+def readFirst (b : UInt8) : Nat := if b.toNat = 0x05 then 0xE5 else b.toNat
+
 /-- The 11 stored bytes of a valid 8.3 name, or `none`. -/
 def parse (s : List Nat) : Option (List UInt8) :=
   if s = [0x2E, 0x2E] then some (UInt8.ofNat 0x2E :: UInt8.ofNat 0x2E :: List.replicate 9 (UInt8.ofNat 0x20))
@@ -30,6 +49,16 @@ def parse (s : List Nat) : Option (List UInt8) :=
     let rest := s.dropWhile (· ≠ 0x2E)
     let ext := rest.drop 1          -- what follows the first period, if any
     if 1 ≤ base.length ∧ base.length ≤ 8 ∧ base.all nameChar ∧ ext.length ≤ 3 ∧ ext.all nameChar
-    then some (pad 8 base ++ pad 3 ext) else none
+    then some (padBase base ++ pad 3 ext) else none
+
+/-- What a valid name prints as: upper-cased, a period only before a non-empty extension; the
+directory names print as `..` and `.` (the empty string too). -/
+def canon (s : List Nat) : List Nat :=
+  if s = [0x2E, 0x2E] then [0x2E, 0x2E]
+  else if s = [] ∨ s = [0x2E] then [0x2E]
+  else
+    let base := s.takeWhile (· ≠ 0x2E)
+    let ext := (s.dropWhile (· ≠ 0x2E)).drop 1
+    base.map upper ++ (match ext.map upper with | [] => [] | c :: cs => 0x2E :: c :: cs)
 
 end Sdmmc.Spec.Name83
